@@ -33,7 +33,7 @@ def norm_op(op):
 
 def expr_of_instr(fd, ins, depth=0, seen=None):
     seen = seen or set()
-    if depth > 18 or ins is None:
+    if depth > 48 or ins is None:
         return ("?",)
     if ins.kind == "assign":
         rk = ins.rv_kind()
@@ -71,7 +71,7 @@ def expr(fd, op, depth=0, seen=None):
     p = op.place
     flds = [x for x in p.fields() if x[0] and x[2] is not None]
     l = p.local
-    if depth > 18:
+    if depth > 48:
         return ("?",)
     ds = [d for d in fd.defs.get(l, ()) if d.kind != "param"]
     if len(ds) > 1:
